@@ -42,12 +42,13 @@ type detemper struct {
 	info *types.Info
 	body *ast.BlockStmt
 
-	writes   map[types.Object]int          // assignments other than the defining one, &v, partial writes of values
-	wsites   map[types.Object][]writeSite  // where those writes are (traversal order, enclosing loops)
-	seq      map[ast.Node]int              // traversal order of statements
-	loopsOf  map[ast.Node][]ast.Node       // loops enclosing a statement
-	uses     map[types.Object][]*ast.Ident // reads (identifier uses) in source order
-	captured map[types.Object]bool         // used inside a function literal other than the one declaring it
+	writes      map[types.Object]int          // assignments other than the defining one, &v, partial writes of values
+	wholeWrites map[types.Object]int          // of which: assignments to the variable itself
+	wsites      map[types.Object][]writeSite  // where those writes are (traversal order, enclosing loops)
+	seq         map[ast.Node]int              // traversal order of statements
+	loopsOf     map[ast.Node][]ast.Node       // loops enclosing a statement
+	uses        map[types.Object][]*ast.Ident // reads (identifier uses) in source order
+	captured    map[types.Object]bool         // used inside a function literal other than the one declaring it
 }
 
 func (d *detemper) obj(e ast.Expr) types.Object {
@@ -68,6 +69,7 @@ type writeSite struct {
 
 func (d *detemper) index() {
 	d.writes = map[types.Object]int{}
+	d.wholeWrites = map[types.Object]int{}
 	d.wsites = map[types.Object][]writeSite{}
 	d.seq = map[ast.Node]int{}
 	d.loopsOf = map[ast.Node][]ast.Node{}
@@ -94,7 +96,9 @@ func (d *detemper) index() {
 				}
 				// (a store through a pointer does not change the variable, but a variable that is the
 				// base of an assignment target is no mere name for a value either)
-				_ = whole
+				if whole {
+					d.wholeWrites[o]++
+				}
 				d.writes[o]++
 				d.wsites[o] = append(d.wsites[o], writeSite{counter, append([]ast.Node(nil), loopStack...)})
 				return
@@ -361,8 +365,15 @@ func (d *detemper) tempDef(s ast.Stmt) (*types.Var, ast.Expr) {
 		return nil, nil
 	}
 	v, _ := d.info.Defs[id].(*types.Var)
-	if v == nil || d.writes[v] > 0 || len(d.uses[v]) == 0 {
+	if v == nil || len(d.uses[v]) == 0 {
 		return nil, nil
+	}
+	if d.writes[v] > 0 {
+		// a pointer to a local that is only ever stored *through* is a name for that local
+		u, isAddr := ast.Unparen(e).(*ast.UnaryExpr)
+		if !isAddr || u.Op != token.AND || d.wholeWrites[v] > 0 || !d.stablePath(e) {
+			return nil, nil
+		}
 	}
 	if d.captured[v] && !d.stablePath(e) && !d.settledCopy(s, e) {
 		return nil, nil // a closure reads it later: only a value that can never change may be put in its place
@@ -1297,7 +1308,137 @@ func (p *Prog) desugarSearch(info *types.Info, body *ast.BlockStmt) {
 	})
 }
 
+// hasSearchLeaf: e is a condition built with !, && and || one of whose leaves is a slices search.
+func hasSearchLeaf(info *types.Info, e ast.Expr) (compound, found bool) {
+	var scan func(e ast.Expr, root bool)
+	scan = func(e ast.Expr, root bool) {
+		e = ast.Unparen(e)
+		switch t := e.(type) {
+		case *ast.UnaryExpr:
+			if t.Op == token.NOT {
+				scan(t.X, root)
+				return
+			}
+		case *ast.BinaryExpr:
+			if t.Op == token.LAND || t.Op == token.LOR {
+				compound = true
+				scan(t.X, false)
+				scan(t.Y, false)
+				return
+			}
+		}
+		if _, name := slicesCall(info, e); name == "ContainsFunc" || name == "Contains" || name == "EqualFunc" {
+			found = true
+		}
+	}
+	scan(e, true)
+	return
+}
+
+// lowerSearchCond makes the short-circuit evaluation of `if c { T } else { E }`
+// explicit (one `if` per leaf, jumps into the two branches) when c is a compound
+// condition with a slices search among its leaves, so that the search can be
+// desugared where it stands.
+func (p *Prog) lowerSearchCond(info *types.Info, ifs *ast.IfStmt) []ast.Stmt {
+	if ifs.Init != nil {
+		return nil
+	}
+	if compound, found := hasSearchLeaf(info, ifs.Cond); !compound || !found {
+		return nil
+	}
+	label := func(kind string) string {
+		p.normSeq++
+		return fmt.Sprintf("srch%d_%s", p.normSeq, kind)
+	}
+	at := ifs.Pos()
+	lbl := func(name string, pos token.Pos) ast.Stmt {
+		return &ast.LabeledStmt{Label: &ast.Ident{NamePos: pos, Name: name}, Colon: pos, Stmt: &ast.EmptyStmt{Semicolon: pos, Implicit: true}}
+	}
+	jump := func(name string, pos token.Pos) ast.Stmt {
+		return &ast.BranchStmt{TokPos: pos, Tok: token.GOTO, Label: &ast.Ident{NamePos: pos, Name: name}}
+	}
+	var lower func(e ast.Expr, thenL, elseL string) []ast.Stmt
+	lower = func(e ast.Expr, thenL, elseL string) []ast.Stmt {
+		e = ast.Unparen(e)
+		switch t := e.(type) {
+		case *ast.UnaryExpr:
+			if t.Op == token.NOT {
+				return lower(t.X, elseL, thenL)
+			}
+		case *ast.BinaryExpr:
+			switch t.Op {
+			case token.LAND:
+				mid := label("and")
+				out := lower(t.X, mid, elseL)
+				out = append(out, lbl(mid, t.OpPos))
+				return append(out, lower(t.Y, thenL, elseL)...)
+			case token.LOR:
+				mid := label("or")
+				out := lower(t.X, thenL, mid)
+				out = append(out, lbl(mid, t.OpPos))
+				return append(out, lower(t.Y, thenL, elseL)...)
+			}
+		}
+		pos := e.Pos()
+		return []ast.Stmt{&ast.IfStmt{If: pos, Cond: e,
+			Body: &ast.BlockStmt{Lbrace: pos, List: []ast.Stmt{jump(thenL, pos)}, Rbrace: e.End()},
+			Else: &ast.BlockStmt{Lbrace: e.End(), List: []ast.Stmt{jump(elseL, e.End())}, Rbrace: e.End()}}}
+	}
+	thenL, elseL, endL := label("then"), label("else"), label("end")
+	out := lower(ifs.Cond, thenL, elseL)
+	out = append(out, lbl(thenL, ifs.Body.Lbrace))
+	out = append(out, ifs.Body.List...)
+	out = append(out, jump(endL, ifs.Body.Rbrace), lbl(elseL, ifs.Body.Rbrace))
+	switch e := ifs.Else.(type) {
+	case *ast.BlockStmt:
+		out = append(out, e.List...)
+	case nil:
+	default:
+		out = append(out, e)
+	}
+	out = append(out, lbl(endL, ifs.End()))
+	_ = at
+	return out
+}
+
 func (p *Prog) desugarList(info *types.Info, list []ast.Stmt) []ast.Stmt {
+	// `return <condition with a search>` reads `if <condition> { return true }; return false`
+	var pre []ast.Stmt
+	for _, s := range list {
+		if rs, ok := s.(*ast.ReturnStmt); ok && len(rs.Results) == 1 {
+			if _, found := hasSearchLeaf(info, rs.Results[0]); found {
+				if b, isBool := info.TypeOf(rs.Results[0]).Underlying().(*types.Basic); isBool && b.Kind() == types.Bool {
+					mk := func(v bool, pos token.Pos) *ast.ReturnStmt {
+						name := "false"
+						if v {
+							name = "true"
+						}
+						id := &ast.Ident{NamePos: pos, Name: name}
+						info.Uses[id] = types.Universe.Lookup(name)
+						info.Types[id] = types.TypeAndValue{Type: types.Typ[types.Bool], Value: constant.MakeBool(v)}
+						return &ast.ReturnStmt{Return: pos, Results: []ast.Expr{id}}
+					}
+					ifs := &ast.IfStmt{If: rs.Pos(), Cond: rs.Results[0], Body: &ast.BlockStmt{Lbrace: rs.Pos(), List: []ast.Stmt{mk(true, rs.Pos())}, Rbrace: rs.End()}}
+					pre = append(pre, ifs, mk(false, rs.End()))
+					continue
+				}
+			}
+		}
+		pre = append(pre, s)
+	}
+	list = pre
+	// compound conditions holding a search are split into their leaves first
+	var split []ast.Stmt
+	for _, s := range list {
+		if ifs, ok := s.(*ast.IfStmt); ok {
+			if repl := p.lowerSearchCond(info, ifs); repl != nil {
+				split = append(split, repl...)
+				continue
+			}
+		}
+		split = append(split, s)
+	}
+	list = split
 	var out []ast.Stmt
 	for _, s := range list {
 		if ifs, ok := s.(*ast.IfStmt); ok {
